@@ -177,6 +177,7 @@ SELF_PID, PGRP = 1000, 999          # pid of the driver (parent side), process g
 SOFT_EXIT = ('exit',)
 ERROR_FNS = ('error', 'error_at', 'error_tok')              # R14.7: end in exit(1)
 PID = 4242
+OTHER_PID = 4141        # a child the driver did not start itself (inherited through exec from a wrapper that forked a helper)
 
 
 def is_uninit(v):
@@ -210,10 +211,57 @@ def proc_state(ctx):
     return ctx.proc
 
 
-def make_interp(P, unit, opaque=(), extra_models=None, loop_limit=1, globals_=None, noreturn_extra=(), inline_other_units=False):
+def make_interp(P, unit, opaque=(), extra_models=None, loop_limit=1, globals_=None, noreturn_extra=(), inline_other_units=False, inherited_child=False):
     """Engine I configured with the process model. Scalar locals without initializer
     become the symbol `uninit:<name>` so that a read of a never-written variable is visible
-    in the path facts instead of aborting the analysis."""
+    in the path facts instead of aborting the analysis.
+
+    inherited_child: the process may own one child it did not start itself (a process keeps its children across exec: a
+    wrapper that forks a helper and then execs the driver).  A wait for ANY child (wait, wait3, waitpid/wait4 with pid
+    -1 / 0 / -pgrp, waitid P_ALL / P_PGID) then returns either child, in either order; the other child exits with
+    status 0.  `children` / `status` of the process state keep describing the child the path started itself."""
+    def wait_target(it, ctx, n, name, args):
+        """'own' | 'any' | 'unknown': which children a wait call can return"""
+        if name in ('wait', 'wait3'):
+            return 'any'
+        if name == 'waitid':
+            idt = args[0] if args else None
+            pid = args[1] if len(args) > 1 else None
+            if isinstance(idt, int) and not isinstance(idt, bool):
+                if idt in (0, 2):
+                    return 'any'
+                if idt == 1 and isinstance(pid, int) and not isinstance(pid, bool) and pid == PID:
+                    return 'own'
+            return 'unknown'
+        t = args[0] if args else None
+        if isinstance(t, int) and not isinstance(t, bool):
+            if t == PID:
+                return 'own'
+            if t in (-1, 0, -PGRP):
+                return 'any'
+        return 'unknown'
+
+    def pick_child(it, ctx, n, name, args):
+        """which child a successful wait returns: 'own' | 'other' | None (no child to return)"""
+        st = proc_state(ctx)
+        own = st['children']
+        if not inherited_child or st['role'] != 'parent':
+            return 'own' if own > 0 else None
+        tgt = wait_target(it, ctx, n, name, args)
+        if tgt == 'unknown':
+            raise AnalysisBroken('%s: cannot tell which child is waited for (%s:%d)' % (name, it.unit.name, n.line))
+        if tgt == 'own':
+            return 'own' if own > 0 else None
+        if st.get('others') is None:
+            st['others'] = ctx.choose(2, 'inherited child')
+            ctx.note('the process owns %s' % ('no other child' if st['others'] == 0 else 'one child it did not start (inherited through exec)'))
+        oth = st['others']
+        if own > 0 and oth > 0:
+            return 'own' if ctx.choose(2, 'which child exits first') == 0 else 'other'
+        if own > 0:
+            return 'own'
+        return 'other' if oth > 0 else None
+
     def m_fork(it, ctx, n, args):
         st = proc_state(ctx)
         if st['role'] == 'child' or st['forks'] >= 1:
@@ -231,7 +279,7 @@ def make_interp(P, unit, opaque=(), extra_models=None, loop_limit=1, globals_=No
         name = n.callee()
         idx, oidx = WAIT_FNS[name]
         st['waits'] += 1
-        if st['children'] <= 0:
+        if st['children'] <= 0 and not st.get('others'):
             ctx.note('%s()=-1 [no child]' % name)
             return -1
         if st.get('disp', {}).get(SIGCHLD) == 'ign' or st.get('disp_all', 'dfl') != 'dfl':
@@ -239,9 +287,25 @@ def make_interp(P, unit, opaque=(), extra_models=None, loop_limit=1, globals_=No
                 raise AnalysisBroken('%s with an unknown SIGCHLD disposition (%s:%d)' % (name, it.unit.name, n.line))
             # SIGCHLD ignored: children are reaped by the kernel, wait blocks until all are gone and fails with ECHILD
             st['children'] = 0
+            st['others'] = 0
             st['sigchld_ignored'] = True
             ctx.note('%s()=-1 [SIGCHLD is ignored: no status is delivered]' % name)
             return -1
+        who = pick_child(it, ctx, n, name, args)
+        if who is None:
+            ctx.note('%s()=-1 [no such child]' % name)
+            return -1
+        if who == 'other':
+            # the child this path did not start: exited with status 0
+            st['others'] -= 1
+            st['others_reaped'] = st.get('others_reaped', 0) + 1
+            ctx.note('%s()=%d: status=0 [a child the driver did not start]' % (name, OTHER_PID))
+            p = args[idx] if idx < len(args) else 0
+            if isinstance(p, _Ref):
+                p.place.set(it, 0)
+            elif not (isinstance(p, int) and p == 0):
+                raise AnalysisBroken('%s: status pointer %r not understood (%s:%d)' % (name, p, it.unit.name, n.line))
+            return OTHER_PID
         if oidx is not None:
             opts = args[oidx] if len(args) > oidx else 0
             if not isinstance(opts, int):
@@ -270,8 +334,12 @@ def make_interp(P, unit, opaque=(), extra_models=None, loop_limit=1, globals_=No
         opts = args[3] if len(args) > 3 else None
         if not isinstance(opts, int) or isinstance(opts, bool) or not (opts & WEXITED) or (opts & ~(WNOHANG | WEXITED | WNOWAIT)):
             raise AnalysisBroken('waitid options %r not understood (%s:%d)' % (opts, it.unit.name, n.line))
-        if st['children'] <= 0:
+        if st['children'] <= 0 and not st.get('others'):
             ctx.note('waitid()=-1 [no child]')
+            return -1
+        who = pick_child(it, ctx, n, 'waitid', args)
+        if who is None:
+            ctx.note('waitid()=-1 [no such child]')
             return -1
         p = args[2] if len(args) > 2 else 0
         info = p if isinstance(p, Obj) else None
@@ -283,6 +351,16 @@ def make_interp(P, unit, opaque=(), extra_models=None, loop_limit=1, globals_=No
             chld = sif.fields.get('_sigchld') if isinstance(sif, Obj) else None
             if not isinstance(chld, Obj):
                 raise AnalysisBroken('waitid: siginfo object %r not understood (%s:%d)' % (p, it.unit.name, n.line))
+        if who == 'other':
+            if opts & WNOWAIT:
+                raise AnalysisBroken('waitid(WNOWAIT) in a process with several children is not modelled (%s:%d)' % (it.unit.name, n.line))
+            st['others'] -= 1
+            st['others_reaped'] = st.get('others_reaped', 0) + 1
+            ctx.note('waitid(): si_pid=%d si_code=1 si_status=0 [a child the driver did not start]' % OTHER_PID)
+            if info is not None:
+                info.fields.update({'si_signo': SIGCHLD, 'si_errno': 0, 'si_code': 1})
+                chld.fields.update({'si_pid': OTHER_PID, 'si_uid': 0, 'si_status': 0})
+            return 0
         if opts & WNOHANG and ctx.choose(2, 'waitid WNOHANG') == 1:
             ctx.note('waitid(WNOHANG)=0 [child still running]')
             if info is not None:
@@ -611,6 +689,34 @@ def make_interp(P, unit, opaque=(), extra_models=None, loop_limit=1, globals_=No
                 if i not in st['ann']:
                     st['ann'][i] = list(st['stack'])
     it.e_CallExpr = e_CallExpr
+    if inherited_child:
+        # a loop whose condition reaps children makes one more decided iteration per child the process owns: do not let the
+        # iteration bound of generic loops cut the schedules with the inherited child off
+        waits = set(WAIT_FNS) | {'waitid'}
+
+        def reaps(e):
+            return e is not None and any(c.kind == 'CallExpr' and c.callee() in waits for c in e.walk())
+        orig_loop, orig_do = it.exec_loop, it.exec_do
+
+        def exec_loop(s, a, cond, inc, body, env):
+            old = it.loop_limit
+            if reaps(cond):
+                it.loop_limit = old + 1
+            try:
+                return orig_loop(s, a, cond, inc, body, env)
+            finally:
+                it.loop_limit = old
+
+        def exec_do(s, env):
+            old = it.loop_limit
+            if len(s.inner) > 1 and (reaps(s.inner[1]) or reaps(s.inner[0])):
+                it.loop_limit = old + 1
+            try:
+                return orig_do(s, env)
+            finally:
+                it.loop_limit = old
+        it.exec_loop = exec_loop
+        it.exec_do = exec_do
     return it
 
 
@@ -872,7 +978,42 @@ def string_models():
         s, = need(a[0])
         return m_strcpy([_sub(a[0], len(s)), a[1]]) is NotImplemented and NotImplemented or a[0]
 
-    return {'strdup': wrap(m_strdup), 'strndup': wrap(m_strndup), 'strlen': wrap(m_strlen),
+    def m_strtok(it, ctx, n, args):
+        # ISO C strtok over a writable buffer; the saved position is part of the process state of the path
+        st = proc_state(ctx)
+        try:
+            delim, = need(args[1])
+            p = args[0]
+            if isinstance(p, int) and not isinstance(p, bool) and p == 0:
+                p = st.get('strtok')
+                if p is None:
+                    return _opaque_call(it, ctx, n, args)
+                if p == 0:
+                    return 0
+            if not (isinstance(p, _Ref) and isinstance(p.place, ElemPlace) and isinstance(p.place.arr, Arr) and isinstance(p.place.i, int)):
+                return _opaque_call(it, ctx, n, args)
+            s, = need(p)
+        except (IndexError, TypeError):
+            return _opaque_call(it, ctx, n, args)
+        arr, i0 = p.place.arr, p.place.i
+        k = 0
+        while k < len(s) and s[k] in delim:
+            k += 1
+        if k == len(s):
+            st['strtok'] = 0
+            return 0
+        e = k
+        while e < len(s) and s[e] not in delim:
+            e += 1
+        if e < len(s):
+            arr.elems[i0 + e] = 0
+            st['strtok'] = _Ref(ElemPlace(arr, i0 + e + 1))
+        else:
+            st['strtok'] = 0
+        return _Ref(ElemPlace(arr, i0 + k))
+
+    return {'strtok': m_strtok,
+            'strdup': wrap(m_strdup), 'strndup': wrap(m_strndup), 'strlen': wrap(m_strlen),
             'strchr': wrap(m_strchr), 'strrchr': wrap(lambda a: m_strchr(a, True)), 'strstr': wrap(m_strstr),
             'basename': wrap(m_basename), '__xpg_basename': wrap(m_basename), 'dirname': wrap(m_dirname),
             'strcmp': wrap(m_strcmp), 'strncmp': wrap(m_strncmp), 'format': wrap(m_format),
